@@ -552,3 +552,16 @@ package dnssec
 //@ func canonicalizeRdataNames
 //@   nosafety all
 //@   modifies heap(dns.NS.Ns), heap(dns.MD.Md), heap(dns.MF.Mf), heap(dns.CNAME.Target), heap(dns.SOA.Ns), heap(dns.SOA.Mbox), heap(dns.MB.Mb), heap(dns.MG.Mg), heap(dns.MR.Mr), heap(dns.PTR.Ptr), heap(dns.MINFO.Rmail), heap(dns.MINFO.Email), heap(dns.MX.Mx), heap(dns.RP.Mbox), heap(dns.RP.Txt), heap(dns.AFSDB.Hostname), heap(dns.RT.Host), heap(dns.SIG.RRSIG), heap(dns.PX.Map822), heap(dns.PX.Mapx400), heap(dns.NAPTR.Replacement), heap(dns.KX.Exchanger), heap(dns.SRV.Target), heap(dns.DNAME.Target)
+//@
+//@ # ---- C01: the DS-anchored subset of a DNSKEY set. A key joins the result only after the digest of THAT key, under a
+//@ # supported DS record's own digest type, equalled that DS's decoded digest, and only if it is a usable candidate for
+//@ # that DS (same tag, algorithm, class, owner; a zone key); a refused budget check or digest error yields no set at all
+//@ func AnchoredKeysWithWork
+//@   abstract
+//@   nosafety all pre
+//@   assert at append#1: lastret("middleware/resolver/dnssec.runDSDigestMatch") && lastret("middleware/resolver/dnssec.runDSDigestMatch", 1) == nil && lastret("middleware/resolver/dnssec.usableDSCandidate") && lastret("middleware/resolver/dnssec.IsSupportedDS") && len(src) == 1 && src[0] == ksk
+//@   assert at call middleware/resolver/dnssec.runDSDigestMatch#1: arg0 == work && arg1 == ksk && arg2 == parentDS.DigestType && arg3 == lastret("encoding/hex.DecodeString") && lastret("encoding/hex.DecodeString", 1) == nil && len(arg3) > 0 && lastret("middleware/resolver/dnssec.usableDSCandidate")
+//@   assert at call middleware/resolver/dnssec.usableDSCandidate#1: arg0 == parentDS && arg1 == ksk && lastret("middleware/resolver/dnssec.IsSupportedDS")
+//@   assert at return#1: result0 == nil && result1 != nil
+//@   assert at return#2: result0 == nil && result1 != nil
+//@   assert at return#3: result1 == nil
